@@ -225,14 +225,23 @@ def run(tier, replay=None):
         # dissimilar shells: a compact low-l shell far from a soft ECP whose own atom carries a diffuse high-l shell, the compact
         # shell listed LAST (only the first shell of a pair is screened); the distance scans the window in which the screen decides
         nst = len(sysc) // 3
-        for fam in range(3 if tier == "quick" else 12):
+        nfam = 3 if tier == "quick" else 12; nsemi = 2 if tier == "quick" else 8
+        for fam in range(nfam + nsemi):
             lhi = maxl; ehi = rng.loguniform(0.006, 0.012); elo = rng.uniform(1.0, 3.0); llo = rng.randint(0, 1)
             dirn = gen.rand_dir(rng)
             eta = rng.uniform(0.06, 0.2)
-            u = {"c": [0.0, 0.0, 0.0], "p": [{"n": 2, "l": l_, "a": eta * (1.0 if l_ == 1 else rng.uniform(1.0, 2.0)), "d": rng.uniform(1.0, 4.0) * rng.choice([1, -1])} for l_ in range(2)]}
+            semi = fam >= nfam
+            if not semi:
+                u = {"c": [0.0, 0.0, 0.0], "p": [{"n": 2, "l": l_, "a": eta * (1.0 if l_ == 1 else rng.uniform(1.0, 2.0)), "d": rng.uniform(1.0, 4.0) * rng.choice([1, -1])} for l_ in range(2)]}
+                tvals = [26.0, 29.0, 31.0, 33.0, 36.0, 40.0, 45.0, 50.0] if tier == "quick" else [24.0 + 1.0 * i for i in range(34)]
+            else:
+                # the ECP's most diffuse primitive sits in the SEMI-LOCAL channel and its local part is compact (round 6): the reach of the
+                # potential is set by the semi-local primitive; scanned from distances at which that contribution is large
+                u = {"c": [0.0, 0.0, 0.0], "p": [{"n": 2, "l": l_, "a": eta * (1.0 if l_ == 0 else rng.uniform(4.0, 40.0)), "d": rng.uniform(1.0, 4.0) * rng.choice([1, -1])} for l_ in range(2)]}
+                tvals = [3.0, 5.0, 8.0, 12.0, 16.0, 20.0, 26.0, 31.0] if tier == "quick" else [3.0 + 1.5 * i for i in range(24)]
             mu_ = elo * eta / (elo + eta)
             # the screen compares ~exp(-mu d^2) with a threshold: scan -log of that factor across the decision region
-            for t_ in ([26.0, 29.0, 31.0, 33.0, 36.0, 40.0, 45.0, 50.0] if tier == "quick" else [24.0 + 1.0 * i for i in range(34)]):
+            for t_ in tvals:
                 d_ = math.sqrt(t_ / mu_)
                 P = [x * d_ for x in dirn]
                 sh_ = [{"l": 0, "c": [0.0, 0.0, 0.0], "e": [0.5], "d": [1.0]}, {"l": lhi, "c": [0.0, 0.0, 0.0], "e": [ehi], "d": [1.0]},
